@@ -278,6 +278,14 @@ auto ramalhete_queue<T, Policies...>::pop() -> std::optional<value_type> {
         break; // No more nodes in the queue
       }
 
+      // _tail must not lag behind the node we are about to unlink; otherwise a push could acquire a
+      // guard to a node that has already been retired (and possibly reclaimed) via _tail.
+      marked_ptr tail = _tail.load(std::memory_order_relaxed);
+      if (tail == h) {
+        // this release-CAS synchronizes-with the acquire-load (3) - same role as (7)
+        _tail.compare_exchange_strong(tail, next, std::memory_order_release, std::memory_order_relaxed);
+      }
+
       marked_ptr expected = h;
       // (13) - this release-CAS synchronizes-with the acquire-load (1, 9)
       if (_head.compare_exchange_strong(expected, next, std::memory_order_release, std::memory_order_relaxed)) {
